@@ -1,11 +1,15 @@
-(* LexSpec.v — reference lexical grammar (the part of it that is formalised so far).
-   The full grammar (lexeme classes word / number / string / quoted identifier / back-ticked identifier /
-   triple-quoted string / dollar-quoted string / parameter / operator, the separator language and the adjacency rule)
-   is the one written out in lib/lexgen.py, from which the lexical generator and the implementation-side reference
-   lexer are built.  Formalised here: the operator and punctuation class with its rendering, its token and the
-   "cannot be extended by what follows" condition of maximal munch. *)
+(* LexSpec.v — reference lexical grammar: lexeme classes with their rendering [render] and the token they denote
+   [tok_of], the separator language (white space, line comments, block comments), the decidable adjacency rule
+   [follow_ok] (what follows cannot extend the lexeme), the well-formedness predicate [wf] of a lexeme sequence
+   with separators, the text [interleave ls seps] it denotes, the reading the grammar prescribes ([expect]: raw
+   tokens with byte spans and the comments; [tok_norm] / [normalize]: kinds and values after two-word keywords are
+   split and keyword spellings are upper-cased).  The same grammar is written out in lib/lexgen.py, from which the
+   lexical generator and the implementation-side reference lexer are built.
+   Text is a list of bytes; code points are numbers; UTF-8 coding ([encode_rune] / [decode_rune]), the rune classes,
+   [to_upper] and the table lookup [assoc_b] are shared with Model/Lexer.v (they are standard functions over the
+   regenerated tables), nothing else of the model is used. *)
 From Coq Require Import List NArith Bool.
-From GV Require Import Gen.LexTables.
+From GV Require Import Gen.LexTables Model.Lexer.
 Import ListNotations.
 Local Open Scope N_scope.
 
@@ -38,3 +42,403 @@ Definition optable : list (list N * N * list N) :=
 (* an operator lexeme: its text, the token it denotes *)
 Definition op_lexemes : list (list N * N) :=
   map (fun p => ([fst p], snd p)) punct1 ++ map (fun p => (fst (fst p), snd (fst p))) optable.
+
+(* ============================================================================================== *)
+(* text                                                                                            *)
+
+(* Unicode scalar values: code points that have a UTF-8 encoding *)
+Definition scalar (r : N) : bool := (r <? 55296) || ((57343 <? r) && (r <? 1114112)).
+Definition utf8 (rs : list N) : list N := flat_map encode_rune rs.
+
+Definition ws_byte (b : N) : bool := (b =? 32) || (b =? 9) || (b =? 13) || (b =? 10).
+Definition digit_byte (b : N) : bool := (48 <=? b) && (b <=? 57).
+
+(* conditions on the text that follows a lexeme *)
+(* the next byte is none of [forb] (nothing follows: fine) *)
+Definition next_byte_not (forb : list N) (r : list N) : bool :=
+  match r with [] => true | b :: _ => negb (existsb (N.eqb b) forb) end.
+Definition next_byte_nondigit (r : list N) : bool :=
+  match r with [] => true | b :: _ => negb (digit_byte b) end.
+(* the next code point does not satisfy [p] *)
+Definition next_rune_not (p : N -> bool) (r : list N) : bool :=
+  match r with [] => true | _ => negb (p (fst (decode_rune r))) end.
+
+(* the text at which a token starts: not white space, not a comment opener *)
+Definition clean (x : list N) : bool :=
+  match x with
+  | [] => true
+  | a :: tl =>
+      negb (ws_byte a) &&
+      match tl with
+      | b :: _ => negb (((a =? 45) && (b =? 45)) || ((a =? 47) && (b =? 42)))
+      | [] => true
+      end
+  end.
+
+(* ============================================================================================== *)
+(* lexeme classes                                                                                  *)
+
+(* operators and punctuation: one table (text, kind, bytes that would extend it) *)
+Definition all_ops : list (list N * N * list N) := map (fun p => ([fst p], snd p, [])) punct1 ++ optable.
+
+Inductive sitem : Type :=             (* content of a '...' string *)
+| SChar (r : N)                       (* a code point other than a quote or a backslash *)
+| SQuote2 (a b : N)                   (* a doubled quote: denotes one ' *)
+| SEsc (e : N).                       (* backslash escape: the backslash and one of: backslash, the three quote characters, n, r, t *)
+Inductive qitem : Type :=             (* content of a double-quoted identifier *)
+| QChar (r : N)
+| QQuote2 (a b : N).
+Inductive bitem : Type :=             (* content of a `...` identifier, byte-wise *)
+| BByte (b : N)
+| BTick2.
+
+Inductive lexeme : Type :=
+| LOp (e : list N * N * list N)                         (* operator / punctuation: an entry of all_ops *)
+| LAt                                                   (* bare @ *)
+| LDollarSign                                           (* bare $ *)
+| LNum (ip : list N) (fp : option (list N)) (ex : option (N * option N * list N))
+                                                        (* digits [. digits] [(e|E) [+|-] digits] *)
+| LWord (rs : list N)                                   (* identifier or keyword: code points *)
+| LParamNum (ds : list N)                               (* $1 *)
+| LParamAt (rs : list N)                                (* @name *)
+| LSStr (op cl : N) (items : list sitem)                (* '...' (also the typographic single quotes) *)
+| LQId (op cl : N) (items : list qitem)                 (* double-quoted identifier (also the typographic double quotes) *)
+| LBId (items : list bitem)                             (* `...` *)
+| LDollar (tag : list N) (body : list N)                (* $tag$ body $tag$ *)
+| LTriple (rs : list N).                                (* triple-quoted string: three quotes, text, three quotes; no escapes *)
+
+Definition is_word (l : lexeme) : bool := match l with LWord _ => true | _ => false end.
+
+(* ---- rendering ---- *)
+Definition sitem_text (it : sitem) : list N :=
+  match it with
+  | SChar r => encode_rune r
+  | SQuote2 a b => encode_rune a ++ encode_rune b
+  | SEsc e => [92; e]
+  end.
+Definition qitem_text (it : qitem) : list N :=
+  match it with QChar r => encode_rune r | QQuote2 a b => encode_rune a ++ encode_rune b end.
+Definition bitem_text (it : bitem) : list N := match it with BByte b => [b] | BTick2 => [96; 96] end.
+
+Definition num_text (ip : list N) (fp : option (list N)) (ex : option (N * option N * list N)) : list N :=
+  ip ++ (match fp with Some f => 46 :: f | None => [] end)
+     ++ (match ex with
+         | Some (e, sg, ds) => e :: (match sg with Some s => [s] | None => [] end) ++ ds
+         | None => []
+         end).
+
+Definition dollar_tag (tag : list N) : list N := 36 :: utf8 tag ++ [36].
+
+Definition render (l : lexeme) : list N :=
+  match l with
+  | LOp e => fst (fst e)
+  | LAt => [64]
+  | LDollarSign => [36]
+  | LNum ip fp ex => num_text ip fp ex
+  | LWord rs => utf8 rs
+  | LParamNum ds => 36 :: ds
+  | LParamAt rs => 64 :: utf8 rs
+  | LSStr op cl items => encode_rune op ++ flat_map sitem_text items ++ encode_rune cl
+  | LQId op cl items => encode_rune op ++ flat_map qitem_text items ++ encode_rune cl
+  | LBId items => 96 :: flat_map bitem_text items ++ [96]
+  | LDollar tag body => dollar_tag tag ++ body ++ dollar_tag tag
+  | LTriple rs => [39; 39; 39] ++ utf8 rs ++ [39; 39; 39]
+  end.
+
+(* ---- decoded values ---- *)
+Definition esc_value (e : N) : list N :=
+  if e =? 110 then [10] else if e =? 114 then [13] else if e =? 116 then [9] else [e].
+Definition sitem_value (it : sitem) : list N :=
+  match it with
+  | SChar r => encode_rune (normalize_quote r)      (* typographic quotes inside a literal are normalised *)
+  | SQuote2 _ _ => [39]
+  | SEsc e => esc_value e
+  end.
+Definition qitem_value (it : qitem) : list N :=
+  match it with QChar r => encode_rune (normalize_quote r) | QQuote2 _ _ => [34] end.
+Definition bitem_value (it : bitem) : list N := match it with BByte b => [b] | BTick2 => [96] end.
+
+Definition kw_type (u : list N) : N := match assoc_b keywords u with Some t => t | None => TT_Identifier end.
+
+(* the token a lexeme denotes when read on its own: (kind, value, quote mark) *)
+Definition tok_of (l : lexeme) : rtok :=
+  match l with
+  | LOp e => (snd (fst e), fst (fst e), 0)
+  | LAt => (TT_AtSign, [64], 0)
+  | LDollarSign => (TT_Placeholder, [36], 0)
+  | LNum ip fp ex => (TT_Number, num_text ip fp ex, 0)
+  | LWord rs => (kw_type (to_upper (utf8 rs)), utf8 rs, 0)
+  | LParamNum ds => (TT_Placeholder, 36 :: ds, 0)
+  | LParamAt rs => (TT_Placeholder, 64 :: utf8 rs, 0)
+  | LSStr op cl items => (TT_SingleQuotedString, flat_map sitem_value items, op)
+  | LQId op cl items => (TT_DoubleQuotedString, flat_map qitem_value items, 34)
+  | LBId items => (TT_Identifier, flat_map bitem_value items, 96)
+  | LDollar tag body => (TT_DollarQuotedString, body, 0)
+  | LTriple rs => (TT_TripleSingleQuotedString, utf8 rs, 39)
+  end.
+
+(* the same after normalisation: a keyword carries its canonical upper-case spelling *)
+Definition tok_norm (l : lexeme) : rtok :=
+  match l with
+  | LWord rs =>
+      match assoc_b keywords (to_upper (utf8 rs)) with
+      | Some t => (t, to_upper (utf8 rs), 0)
+      | None => (TT_Identifier, utf8 rs, 0)
+      end
+  | _ => tok_of l
+  end.
+
+(* ---- well-formedness of one lexeme ---- *)
+Definition op_eqb (a b : list N * N * list N) : bool :=
+  bytes_eqb (fst (fst a)) (fst (fst b)) && (snd (fst a) =? snd (fst b)) && bytes_eqb (snd a) (snd b).
+
+Definition word_shape (rs : list N) : bool :=
+  match rs with
+  | [] => false
+  | r :: tl => is_ident_start r && forallb is_ident_part tl && forallb scalar rs
+  end.
+
+Definition digits_ok (ds : list N) : bool := match ds with [] => false | _ => forallb digit_byte ds end.
+
+Definition sitem_ok (it : sitem) : bool :=
+  match it with
+  | SChar r => scalar r && negb (normalize_quote r =? 39) && negb (normalize_quote r =? 92)
+  | SQuote2 a b => scalar a && scalar b && (normalize_quote a =? 39) && (normalize_quote b =? 39)
+  | SEsc e => existsb (N.eqb e) [92; 34; 39; 96; 110; 114; 116]
+  end.
+Definition qitem_ok (it : qitem) : bool :=
+  match it with
+  | QChar r => scalar r && negb (normalize_quote r =? 34) && negb (normalize_quote r =? 10)
+  | QQuote2 a b => scalar a && scalar b && (normalize_quote a =? 34) && (normalize_quote b =? 34)
+  end.
+Definition bitem_ok (it : bitem) : bool := match it with BByte b => negb (b =? 96) | BTick2 => true end.
+
+(* the closing tag does not occur in body ++ closing before the end of body *)
+Fixpoint no_early_close (closing body : list N) : bool :=
+  match body with
+  | [] => true
+  | _ :: tl => negb (is_prefix closing (body ++ closing)) && no_early_close closing tl
+  end.
+
+(* three quotes in a row do not occur in rs followed by the closing three quotes before the end of rs *)
+Definition starts3 (l : list N) : bool :=
+  match l with a :: b :: c :: _ => (a =? 39) && (b =? 39) && (c =? 39) | _ => false end.
+Fixpoint no_tclose (rs : list N) : bool :=
+  match rs with
+  | [] => true
+  | _ :: tl => negb (starts3 (rs ++ [39; 39; 39])) && no_tclose tl
+  end.
+
+Definition lex_ok (l : lexeme) : bool :=
+  match l with
+  | LOp e => existsb (op_eqb e) all_ops
+  | LAt => true
+  | LDollarSign => true
+  | LNum ip fp ex =>
+      digits_ok ip && (match fp with Some f => digits_ok f | None => true end) &&
+      (match ex with
+       | Some (e, sg, ds) =>
+           ((e =? 101) || (e =? 69)) && (match sg with Some s => (s =? 43) || (s =? 45) | None => true end) && digits_ok ds
+       | None => true
+       end)
+  | LWord rs => word_shape rs
+  | LParamNum ds => digits_ok ds
+  | LParamAt rs => word_shape rs
+  | LSStr op cl items =>
+      is_single_quote_family op && scalar op && (normalize_quote op =? 39) && scalar cl && (normalize_quote cl =? 39) &&
+      forallb sitem_ok items &&
+      (* ''' opens a triple-quoted literal, not a string that begins with a doubled quote *)
+      (match items with SQuote2 a b :: _ => negb ((op =? 39) && (a =? 39) && (b =? 39)) | _ => true end)
+  | LQId op cl items =>
+      ((op =? 34) || is_unicode_quote op) && negb (is_ident_start op) && scalar op && (normalize_quote op =? 34) &&
+      scalar cl && (normalize_quote cl =? 34) && forallb qitem_ok items
+  | LBId items => forallb bitem_ok items
+  | LDollar tag body =>
+      (match tag with [] => true | t0 :: _ => word_shape tag && is_ident_part t0 end) && no_early_close (dollar_tag tag) body
+  | LTriple rs => forallb scalar rs && no_tclose rs
+  end.
+
+(* ---- adjacency: the text r that follows the lexeme cannot extend it, and the lexeme with what follows does not
+   read as white space or a comment opener ('-' before '-', '/' before '*') ---- *)
+Definition class_follow (l : lexeme) (r : list N) : bool :=
+  match l with
+  | LOp e => next_byte_not (snd e) r
+  | LAt => next_byte_not [62; 64] r && next_rune_not is_ident_start r
+  | LDollarSign => next_rune_not (fun x => is_digit x || (x =? 36) || is_ident_start x) r
+  | LNum ip fp ex =>
+      next_byte_nondigit r &&
+      (match fp, ex with
+       | None, None => next_byte_not [46; 101; 69] r
+       | Some _, None => next_byte_not [101; 69] r
+       | _, Some _ => true
+       end)
+  | LWord rs => next_rune_not is_ident_part r
+  | LParamNum ds => next_byte_nondigit r
+  | LParamAt rs => next_rune_not is_ident_part r
+  | LSStr op cl items => next_rune_not (fun x => normalize_quote x =? 39) r
+  | LQId op cl items => next_rune_not (fun x => normalize_quote x =? 34) r
+  | LBId items => next_byte_not [96] r
+  | LDollar tag body => true
+  | LTriple rs => true
+  end.
+Definition follow_ok (l : lexeme) (r : list N) : bool := class_follow l r && clean (render l ++ r).
+
+(* ============================================================================================== *)
+(* separators                                                                                      *)
+
+Inductive trivia : Type :=
+| TWs (b : N)                 (* one white-space byte: space, tab, CR, LF *)
+| TLine (body : list N)       (* -- body, up to (not including) the line feed or the end of the text *)
+| TBlock (body : list N).     (* /* body */ *)
+Definition sep : Type := list trivia.
+
+Definition render_triv (t : trivia) : list N :=
+  match t with
+  | TWs b => [b]
+  | TLine body => 45 :: 45 :: body
+  | TBlock body => 47 :: 42 :: body ++ [42; 47]
+  end.
+
+Fixpoint no_close (body : list N) : bool :=
+  match body with
+  | a :: tl => (match tl with b :: _ => negb ((a =? 42) && (b =? 47)) | [] => true end) && no_close tl
+  | [] => true
+  end.
+
+Definition triv_ok (t : trivia) : bool :=
+  match t with
+  | TWs b => ws_byte b
+  | TLine body => forallb (fun b => negb (b =? 10)) body
+  | TBlock body => no_close body
+  end.
+(* a line comment ends at a line feed or at the end of the text *)
+Definition triv_follow (t : trivia) (r : list N) : bool :=
+  match t with
+  | TLine _ => match r with [] => true | b :: _ => b =? 10 end
+  | _ => true
+  end.
+
+(* ============================================================================================== *)
+(* streams: lexemes with separators                                                                *)
+
+Inductive item : Type := ILex (l : lexeme) | ITriv (t : trivia).
+Definition render_item (it : item) : list N := match it with ILex l => render l | ITriv t => render_triv t end.
+Definition render_items (its : list item) : list N := flat_map render_item its.
+
+(* seps has one separator more than there are lexemes: before the first, between, after the last *)
+Fixpoint items_of (ls : list lexeme) (seps : list sep) : list item :=
+  match seps with
+  | [] => []
+  | s :: seps' =>
+      map ITriv s ++ match ls with [] => [] | l :: ls' => ILex l :: items_of ls' seps' end
+  end.
+Definition interleave (ls : list lexeme) (seps : list sep) : list N := render_items (items_of ls seps).
+
+Fixpoint items_ok (its : list item) : bool :=
+  match its with
+  | [] => true
+  | it :: rest =>
+      (match it with
+       | ILex l => lex_ok l && follow_ok l (render_items rest)
+       | ITriv t => triv_ok t && triv_follow t (render_items rest)
+       end) && items_ok rest
+  end.
+
+(* well-formed: every lexeme and separator piece is well-formed and satisfies its adjacency condition w.r.t. the
+   text that follows it.  Decidable (a boolean). *)
+Definition wf (ls : list lexeme) (seps : list sep) : Prop :=
+  length seps = S (length ls) /\ items_ok (items_of ls seps) = true.
+
+(* ---- the reading the grammar prescribes ---- *)
+Fixpoint drop_ws (its : list item) : list item :=
+  match its with ITriv (TWs _) :: tl => drop_ws tl | _ => its end.
+Fixpoint ws_count (its : list item) : nat :=
+  match its with ITriv (TWs _) :: tl => S (ws_count tl) | _ => O end.
+
+(* one reading step at a lexeme: the raw token, the number of bytes it spans, the items left.  A word that can
+   start a two-word keyword and is followed, across plain white space only, by a word completing one is read
+   together with it as ONE raw token (kind of the two-word keyword, value = canonical upper-case spelling). *)
+Definition next_lex (l : lexeme) (rest : list item) : rtok * nat * list item :=
+  let plain := (tok_of l, length (render l), rest) in
+  match l with
+  | LWord rs =>
+      let u1 := to_upper (utf8 rs) in
+      if mem_b compound_starts u1 then
+        match drop_ws rest with
+        | ILex (LWord rs2) :: rest2 =>
+            let uc := u1 ++ 32 :: to_upper (utf8 rs2) in
+            match assoc_b compound_keywords uc with
+            | Some cty => ((cty, uc, 0), (length (utf8 rs) + ws_count rest + length (utf8 rs2))%nat, rest2)
+            | None => plain
+            end
+        | _ => plain
+        end
+      else plain
+  | _ => plain
+  end.
+
+Definition com_of (bs : list N) (off : N) (t : trivia) : list comment :=
+  match t with
+  | TWs _ => []
+  | TLine body => [mkcom (45 :: 45 :: body) 0 (code_before bs off) off (off + N.of_nat (length (render_triv t)))]
+  | TBlock body => [mkcom (render_triv t) 1 (code_before bs off) off (off + N.of_nat (length (render_triv t)))]
+  end.
+
+(* raw tokens (with byte spans) and comments of the items from byte offset off; bs is the whole text (the inline flag
+   of a comment looks back to the start of its line) *)
+Fixpoint expect (bs : list N) (fuel : nat) (off : N) (its : list item) : list token * list comment :=
+  match fuel with
+  | O => ([], [])
+  | S f =>
+      match its with
+      | [] => ([], [])
+      | ITriv t :: rest =>
+          let '(et, ec) := expect bs f (off + N.of_nat (length (render_triv t))) rest in (et, com_of bs off t ++ ec)
+      | ILex l :: rest =>
+          let '((ty, v, q), n, rest') := next_lex l rest in
+          let '(et, ec) := expect bs f (off + N.of_nat n) rest' in
+          (mktok ty v q off (off + N.of_nat n) :: et, ec)
+      end
+  end.
+
+Definition expect_all (ls : list lexeme) (seps : list sep) : list token * list comment :=
+  let its := items_of ls seps in expect (render_items its) (length its) 0 its.
+
+Definition raw_tokens (ls : list lexeme) (seps : list sep) : list token := fst (expect_all ls seps).
+Definition raw_comments (ls : list lexeme) (seps : list sep) : list comment := snd (expect_all ls seps).
+
+Definition rtok_of (t : token) : rtok := (ttype t, tval t, tquote t).
+Definition comments_of (seps : list sep) : list (list N * N) :=       (* (text, style) *)
+  flat_map (flat_map (fun t => match t with
+                               | TWs _ => []
+                               | TLine body => [(45 :: 45 :: body, 0)]
+                               | TBlock body => [(render_triv t, 1)]
+                               end)) seps.
+
+(* ---- normalisation of a raw token sequence: a two-word keyword token is split into its words, a keyword carries
+   its upper-case spelling (what the parser's token conversion does with the kinds; lib/lexgen.py norm_raw) ---- *)
+Fixpoint split_sp (acc v : list N) : list (list N) :=
+  match v with
+  | [] => [acc]
+  | b :: tl => if b =? 32 then acc :: split_sp [] tl else split_sp (acc ++ [b]) tl
+  end.
+
+Definition norm_tok (t : rtok) : list rtok :=
+  let '(ty, v, q) := t in
+  if (q =? 0) && (match assoc_b compound_keywords v with Some cty => cty =? ty | None => false end)
+  then map (fun w => (kw_type w, w, 0)) (split_sp [] v)
+  else
+    match assoc_b keywords (to_upper v) with
+    | Some kt => if (q =? 0) && (kt =? ty) then [(ty, to_upper v, 0)] else [t]
+    | None => [t]
+    end.
+Definition normalize (ts : list rtok) : list rtok := flat_map norm_tok ts.
+
+(* the letter case of keywords: two lexeme sequences differ only in it *)
+Definition case_variant (l l' : lexeme) : Prop :=
+  l = l' \/
+  match l, l' with
+  | LWord rs, LWord rs' =>
+      to_upper (utf8 rs) = to_upper (utf8 rs') /\ assoc_b keywords (to_upper (utf8 rs)) <> None
+  | _, _ => False
+  end.
